@@ -588,7 +588,11 @@ func lockReentrant(r *engine.Run, rule string, funcs []*ssa.Function, minimum in
 //
 // Keys are per owner type and field; acquisitions of the same key while it is
 // held are the business of LOCK-reentrant and are not edges here.
-func lockOrder(r *engine.Run, rule string, w *engine.LockWorld, minAcq int) {
+func lockOrder(r *engine.Run, rule string, w *engine.LockWorld, minAcq int, label ...string) {
+	lab := ""
+	if len(label) > 0 {
+		lab = label[0] + " "
+	}
 	type edge struct {
 		from, to string
 		pos      string
@@ -627,6 +631,88 @@ func lockOrder(r *engine.Run, rule string, w *engine.LockWorld, minAcq int) {
 				}
 			}
 		})
+	}
+	// across objects, one call chain is enough as well: a lock held (on every path) at a call
+	// site, and any lock the callee may take on some chain below it. Lock keys are per owner
+	// type, so two instances of one type are not told apart: pairs of keys of the same owner
+	// type are left to the same-object analysis below, and only edges between different owner
+	// types are added here.
+	// (Only for a world whose objects are shared by all parties - the state cache with the
+	// block caches being committed into it. Among the trie's stores the same key names many
+	// private instances - a saver's clone of the change collector, a donor store being
+	// iterated - and a type-level cycle there is not a deadlock.)
+	if lab != "" {
+		cg := r.P.RepoCG()
+		memo := map[*ssa.Function]map[string]string{}
+		var mayTake func(g *ssa.Function, depth int, seen map[*ssa.Function]bool) map[string]string
+		mayTake = func(g *ssa.Function, depth int, seen map[*ssa.Function]bool) map[string]string {
+			if g == nil || len(g.Blocks) == 0 || seen[g] || depth > 6 {
+				return nil
+			}
+			if m, ok := memo[g]; ok {
+				return m
+			}
+			seen[g] = true
+			out := map[string]string{}
+			engine.Instrs(g, func(in ssa.Instruction) {
+				if c, ok := in.(*ssa.Call); ok {
+					if key, op, isLock := engine.LockOp(c); isLock && (op == "Lock" || op == "RLock") && key != "?" {
+						if _, had := out[key]; !had {
+							out[key] = fn(g) + " at " + r.P.Pos(c.Pos())
+						}
+					}
+				}
+			})
+			for _, e := range cg.Out[g] {
+				if _, isGo := e.Site.(*ssa.Go); isGo {
+					continue
+				}
+				for k, v := range mayTake(e.Callee, depth+1, seen) {
+					if _, had := out[k]; !had {
+						out[k] = v
+					}
+				}
+			}
+			delete(seen, g)
+			memo[g] = out
+			return out
+		}
+		ownerOf := func(key string) string {
+			if i := strings.Index(key, "."); i > 0 {
+				return key[:i]
+			}
+			return key
+		}
+		for _, f := range fns {
+			loc := w.Local[f]
+			if loc == nil || len(f.Blocks) == 0 {
+				continue
+			}
+			for _, e := range cg.Out[f] {
+				if _, isGo := e.Site.(*ssa.Go); isGo {
+					continue
+				}
+				if _, isDefer := e.Site.(*ssa.Defer); isDefer {
+					continue
+				}
+				held := loc.At[e.Site]
+				if len(held) == 0 {
+					continue
+				}
+				for k, where := range mayTake(e.Callee, 0, map[*ssa.Function]bool{}) {
+					for h := range held {
+						if h == k || h == "?" || ownerOf(h) == ownerOf(k) {
+							continue
+						}
+						key := h + " -> " + k
+						if _, dup := edges[key]; !dup {
+							edges[key] = edge{from: h, to: k, pos: r.P.Pos(e.Site.Pos()), fn: where + " (reached from " + fn(f) + ")"}
+							succ[h] = append(succ[h], k)
+						}
+					}
+				}
+			}
+		}
 	}
 	// a deadlock needs one call chain, not all: a lock of the receiver that is held
 	// (on every path) at a call made on that same receiver, and a lock of the same
@@ -771,8 +857,8 @@ func lockOrder(r *engine.Run, rule string, w *engine.LockWorld, minAcq int) {
 				detail = " (the opposite order is taken in " + o.fn + " at " + o.pos + ")"
 			}
 		}
-		r.Check(!back, rule, "order "+k, e.pos, "acquired in "+e.fn+"; no chain of acquisitions leads back from "+e.to+" to "+e.from,
+		r.Check(!back, rule, lab+"order "+k, e.pos, "acquired in "+e.fn+"; no chain of acquisitions leads back from "+e.to+" to "+e.from,
 			e.fn+" acquires "+e.to+" while holding "+e.from+", and elsewhere "+e.from+" is acquired while "+e.to+" is held"+detail+": two goroutines that each got their first lock wait for each other for ever (ABBA deadlock; with read locks as soon as a writer queues up in between)")
 	}
-	r.OK(rule, "acquisitions", "-", fmt.Sprintf("%d lock acquisitions in %d reachable functions, %d distinct held->acquired pairs", acq, len(fns), len(keys)))
+	r.OK(rule, lab+"acquisitions", "-", fmt.Sprintf("%d lock acquisitions in %d reachable functions, %d distinct held->acquired pairs", acq, len(fns), len(keys)))
 }
